@@ -75,7 +75,7 @@ def check(ctx, src):
               f"{HR}|read_fcomponent|verbatim text", "`=` must emit the field text verbatim (with its surrounding spaces) before the value", HR, rf.lineno, detail="space_before + form_text + space_between + '=' + space_after")
     sav = pyq.contains(rf, lambda n: isinstance(n, ast.With) and "self.saving_chars() as form_text" in norm(n) and norm(n.body[0]) == "model = self.parse_one_form()")
     ctx.check(sav is not None, "FS-FIELD", f"{HR}|read_fcomponent|one form", "a field holds exactly one form, read with its text saved", HR, rf.lineno, detail="with saving_chars(): parse_one_form()")
-    ctx.check(pyq.contains(fmt.body, lambda n: isinstance(n, ast.Assign) and norm(n) == "format_components = self.read_fcomponents_until(component_closing, prefix, 'f')") is not None, "FS-FIELD", f"{HR}|read_fcomponent|nested spec",
+    ctx.check(pyq.contains(fmt.body, lambda n: isinstance(n, ast.Assign) and norm(n) == "format_components = self.read_fcomponents_until(__, prefix, 'f')") is not None, "FS-FIELD", f"{HR}|read_fcomponent|nested spec",
               "the format spec must be read as nested f-string components up to `}`", HR, fmt.lineno, detail="read_fcomponents_until(component_closing, prefix, 'f')")
     junk = pyq.contains(fmt.orelse, lambda n: isinstance(n, ast.Raise) and "trailing junk in field" in norm(n))
     ctx.check(junk is not None, "FS-FIELD", f"{HR}|read_fcomponent|junk", "anything but `}` after the field must be a LexException", HR, fmt.lineno, detail="trailing junk")
